@@ -33,7 +33,7 @@ ItemOf(t) == IF t.k = "prim" THEN TypeName(t.p) ELSE t.name
 Arr(t) == [k |-> "arr", of |-> t, item |-> ItemOf(t), itemns |-> IF t.k = "prim" /\ t.p = "Uuid" THEN "http://spyne.io/schema" ELSE ""]
 Attr(t) == [k |-> "attr", of |-> t]
 F(n, t, min, max) == [n |-> n, t |-> t, min |-> min, max |-> max]
-Occ == {<<0, 1>>, <<1, 1>>, <<0, 99>>, <<1, 2>>}       \* <<min_occurs, max_occurs>> (99 = unbounded)
+Occ == {<<0, 1>>, <<1, 1>>, <<0, 99>>, <<1, 2>>, <<2, 3>>}       \* <<min_occurs, max_occurs>> (99 = unbounded)
 
 Leaf(x) == <<"leaf", x>>
 SeqV(s) == <<"seq", s>>
@@ -43,7 +43,8 @@ LeafChoices(p, o) == {Leaf(x) : x \in LeafVals(p)} \cup (IF o[1] = 0 THEN {Nil} 
 PairOf(S) == {<<a, b>> : a \in S, b \in S}
 SeqChoices(p, o) ==     \* repeated member: 0 (only if min = 0), 1 or 2 items
   LET xs == {Leaf(x) : x \in LeafVals(p)} IN
-  (IF o[1] = 0 THEN {Nil} ELSE {}) \cup {SeqV(<<a>>) : a \in xs} \cup {SeqV(<<p2[1], p2[2]>>) : p2 \in PairOf(xs)}
+  (IF o[1] = 0 THEN {Nil} ELSE {}) \cup (IF o[1] <= 1 THEN {SeqV(<<a>>) : a \in xs} ELSE {}) \cup {SeqV(<<p2[1], p2[2]>>) : p2 \in PairOf(xs)}
+  \cup (IF o[2] >= 3 /\ o[1] >= 2 THEN {SeqV(<<a, a, a>>) : a \in xs} ELSE {})
 MemberChoices(p, o) == IF o[2] > 1 THEN SeqChoices(p, o) ELSE LeafChoices(p, o)
 
 \* a REQUEST may spell a leaf in any way the lexical space allows (SpyneLexical): the cases send
@@ -120,6 +121,13 @@ T6 == UNION {{Case("T6", "wrapped", <<F("c", C6(p), 0, 1)>>, <<v>>, <<C6(p)>>, <
 L6 == Obj("Link", "tns", <<F("href", Attr(Prim("Unicode")), 0, 1), F("title", Prim("Unicode"), 0, 1)>>)
 T6b == {Case("T6", "wrapped", <<F("l", L6, 0, 1)>>, <<v>>, <<L6>>, <<v>>) :
           v \in {ObjV("Link", <<h, t>>) : h \in {Nil, Leaf("hello"), Leaf("x < y & z")}, t \in {Nil, Leaf("hello")}}}
+\* T6c: members whose TYPE declares a default value, holding values that are falsy in the implementation language (false, 0, the
+\* empty string) and ordinary ones: a value that is present is written as it is - the default stands in for absent values only
+PrimD(p, d) == [k |-> "prim", p |-> p, dflt |-> d]
+C6c == Obj("Defaults", "tns", <<F("b", PrimD("Boolean", "true"), 0, 1), F("i", PrimD("Integer", "3"), 0, 1), F("s", PrimD("Unicode", "untitled"), 0, 1)>>)
+T6c == {Case("T6", "wrapped", <<F("c", C6c, 0, 1)>>, <<v>>, <<C6c>>, <<v>>) :
+          v \in {ObjV("Defaults", <<Leaf(b), Leaf(i), Leaf(st)>>) : b \in {"true", "false"}, i \in {"0", "5"}, st \in {"hello", ""}}}
+         \cup {Case("T6", "out_bare", <<F("a", Prim("Integer"), 0, 1)>>, <<Leaf("5")>>, <<PrimD("Integer", "3")>>, <<Leaf(x)>>) : x \in {"0", "5"}}
 \* T7: several arguments, several return values, no return value, no argument
 T7 == {Case("T7", "wrapped", <<F("a", Prim("Integer"), 0, 1), F("b", Prim("Unicode"), 0, 1), F("c", Prim("Boolean"), 0, 1)>>, <<a, b, c>>,
             <<Prim("Unicode"), Prim("Integer")>>, <<b, a>>) :
@@ -145,5 +153,5 @@ T9 == {[Case("T9", "wrapped", <<F("a", Prim("Integer"), 0, 1)>>, <<Leaf("5")>>, 
           EXCEPT !.inh = <<H1, H2>>, !.inhvals = <<i1, i2>>, !.outh = <<H1, H2>>, !.outhvals = <<o1, o2>>] :
              i1 \in H1Vals, i2 \in H2Vals, o1 \in H1Vals, o2 \in H2Vals}
 
-Cases == T9 \cup T1 \cup T2 \cup T3 \cup T4 \cup T5 \cup T6 \cup T6b \cup T7 \cup T8
+Cases == T9 \cup T1 \cup T2 \cup T3 \cup T4 \cup T5 \cup T6 \cup T6b \cup T6c \cup T7 \cup T8
 =============================================================================
